@@ -24,7 +24,9 @@ git -C /repo worktree remove --force $W
 # run my checks against the patched /repo
 git -C /repo apply $OUT/patch.diff || { res "cannot apply to /repo"; exit 2; }
 for P in $PROP $EXTRA; do
-  ( cd /verif && ./check $P quick > $OUT/check_$P.log 2>&1 ); RC=$?
+  # evidence of a run on a patched tree must never land in /verif/evidence (it is committed): redirect it
+  ( cd /verif && VERIF_EVIDENCE_DIR=/var/tmp/ev_seed_$NAME ./check $P quick > $OUT/check_$P.log 2>&1 ); RC=$?
+  rm -rf /var/tmp/ev_seed_$NAME
   res "check $P: exit $RC, $(grep -c '^VIOLATION' $OUT/check_$P.log) VIOLATION line(s): $(grep '^VIOLATION' $OUT/check_$P.log | head -2 | cut -c1-220)"
 done
 git -C /repo checkout -- . ; git -C /repo status --short | grep -v '^??' | head -3
